@@ -177,6 +177,8 @@ def run(ck):
     ck.oblige("correspondence:constructor outcome==fitter_outcome/renderer_outcome", "correspondence", ok_model, detail)
     ck.oblige("correspondence:stored arrays bit-for-bit float32, mask inverted", "correspondence", not ingest_bad,
               json.dumps(ingest_bad[0][1]["ingest"]) if ingest_bad else "")
+    ck.oblige("oracle:documented exception for every inconsistent input, acceptance of every consistent one (property text)", "correspondence",
+              not prop_bad, json.dumps([prop_bad[0][2], prop_bad[0][1].get("outcome") if isinstance(prop_bad[0][1], dict) else str(prop_bad[0][1])], default=str)[:300] if prop_bad else "")
     for c, r in list(zip(cases, res))[:3] + list(zip(cases, res))[-2:]:
         ck.samples.append({"case": {k: c[k] for k in ("kind", "data", "rms", "psf", "mask", "neg", "maskdtype", "jax", "renderer", "fitter")}, "outcome": r["outcome"]})
     ck.trusted += [
